@@ -239,20 +239,6 @@ func main() {
 				}
 				final = x
 			}
-		case *ast.ReturnStmt:
-			// return nil, NewLexError(token, "msg")
-			if len(x.Results) == 2 {
-				if call, ok := x.Results[1].(*ast.CallExpr); ok && isIdent(call.Fun, "NewLexError") && len(call.Args) == 2 {
-					msg, ok := stringLit(call.Args[1])
-					if !ok {
-						fail("%s: NewLexError message must be a string literal", at(call))
-					}
-					if _, ok := leanErrKinds[msg]; !ok {
-						fail("%s: lex error %q is not known to the model", at(call), msg)
-					}
-					flagMsg["@"+at(x)] = msg // placeholder; resolved below from the enclosing if
-				}
-			}
 		}
 		return true
 	})
@@ -263,13 +249,11 @@ func main() {
 		fail("final `switch current_state` not found")
 	}
 	// the if / else-if chain that turns ERROR + flag into a LexError
-	flagMsg = map[string]string{}
 	for _, st := range gnt.Body.List {
 		ifs, ok := st.(*ast.IfStmt)
 		if !ok {
 			continue
 		}
-		isChain := false
 		for cur := ifs; cur != nil; {
 			cond := cur.Cond
 			// token.TokenType == ERROR [&& flag]
@@ -301,7 +285,6 @@ func main() {
 			if _, ok := leanErrKinds[msg]; !ok {
 				fail("%s: lex error %q is not known to the model", at(call), msg)
 			}
-			isChain = true
 			if flag == "" {
 				defaultMsg = msg
 			} else {
@@ -316,7 +299,6 @@ func main() {
 			}
 			cur = next
 		}
-		_ = isChain
 	}
 	if defaultMsg == "" {
 		fail("the `token.TokenType == ERROR` error chain was not found")
